@@ -104,7 +104,9 @@ pub fn gen_case(seed: u64, run: u64, faults: bool, real_every: u64) -> Case {
     let mut r = Rng::new(mix(seed, run));
     let mut sw = Swarm::draw(&mut r);
     sw.callbacks = sw.callbacks && r.chance(1, 2);
-    sw.widths = false;
+    // one definition in four sets `max_width` (the prediction for those is rendered by
+    // `print_message(width)` in a fault-free world, see run_case)
+    sw.widths = r.chance(1, 4);
     sw.bells = r.chance(1, 3);
     let opts = crate::c04::valid_opts(&mut r, &sw);
     let _ = Gen::new(&mut r, sw.clone());
@@ -1102,6 +1104,30 @@ pub fn run_case(case: &Case, stats: &mut Stats) -> RunReport {
                 violation!("P3", ix, key, detail);
                 continue;
             }
+        };
+        // a definition with its own `max_width`: `run()` has to print at that width. The promise
+        // is then what `ParseFailure::print_message(width)` writes for the failure `run_inner`
+        // returned (fault-free world) instead of the default-width `monochrome()` text
+        let e = match (opts.max_width, e.class) {
+            (Some(w), "stdout") | (Some(w), "stderr") => {
+                let twin = exec::build_unchecked(opts);
+                let printed = exec::run_and_print(&twin, rest, &name, w, budget);
+                drop(twin);
+                stats.bump("probe.promise_rendered_at_own_width");
+                match printed.outcome {
+                    Outcome::Text(_) => Expected {
+                        stdout: printed.out.clone(),
+                        stderr: printed.err.clone(),
+                        ..e
+                    },
+                    other => {
+                        stats.bump("prediction.abnormal");
+                        h.write_str(&format!("{:?}", other));
+                        continue;
+                    }
+                }
+            }
+            _ => e,
         };
         // ---- P5: help/version/usage on stdout and completion output need a cause on the
         // command line; everything else that is not a value is a parse failure and belongs
